@@ -71,20 +71,24 @@ Definition is_digit (b : N) : bool := in_range 48 57 b.
 Definition match_sgr (s : bytes) : option (bytes * bytes * bytes * N * nat) :=
   let '(d1, r1) := span is_digit s in
   match d1, r1 with
-  | _ :: _, 59%N :: r1' =>
-    let '(d2, r2) := span is_digit r1' in
-    match d2, r2 with
-    | _ :: _, 59%N :: r2' =>
-      let '(d3, r3) := span is_digit r2' in
-      match d3, r3 with
-      | _ :: _, f :: _ =>
-        if (f =? 77)%N || (f =? 109)%N
-        then Some (d1, d2, d3, f, (length d1 + 1 + length d2 + 1 + length d3 + 1)%nat)
+  | _ :: _, c1 :: r1' =>
+    if (c1 =? 59)%N then
+      let '(d2, r2) := span is_digit r1' in
+      match d2, r2 with
+      | _ :: _, c2 :: r2' =>
+        if (c2 =? 59)%N then
+          let '(d3, r3) := span is_digit r2' in
+          match d3, r3 with
+          | _ :: _, f :: _ =>
+            if (f =? 77)%N || (f =? 109)%N
+            then Some (d1, d2, d3, f, (length d1 + 1 + length d2 + 1 + length d3 + 1)%nat)
+            else None
+          | _, _ => None
+          end
         else None
       | _, _ => None
       end
-    | _, _ => None
-    end
+    else None
   | _, _ => None
   end.
 
